@@ -43,11 +43,42 @@ pub fn panic_message(p: &Box<dyn std::any::Any + Send>) -> String {
     }
 }
 
-/// Silences the default panic printer (panics are caught and classified).
+/// Set as soon as any thread panics inside the harness's own code (see `last_panic_in_harness`).
+static HARNESS_PANICKED: std::sync::atomic::AtomicBool = std::sync::atomic::AtomicBool::new(false);
+
+thread_local! {
+    static LAST_PANIC_FILE: std::cell::RefCell<String> = const { std::cell::RefCell::new(String::new()) };
+}
+
+/// Source file of the last panic raised on this thread (recorded by the hook `quiet_panics` installs).
+pub fn last_panic_file() -> String {
+    LAST_PANIC_FILE.with(|f| f.borrow().clone())
+}
+
+/// Whether the last panic on this thread was raised by the harness's own code (its files are compiled with
+/// crate-relative paths, `src/...`; fast-tlsh and the standard library have absolute paths). Such a panic is a
+/// defect of the machinery and must never be reported as a verdict about the code under test.
+pub fn last_panic_in_harness() -> bool {
+    let f = last_panic_file();
+    f.starts_with("src/") || f.starts_with("harness/src/") || HARNESS_PANICKED.load(std::sync::atomic::Ordering::SeqCst)
+}
+
+/// Silences the default panic printer (panics are caught and classified) and records where each panic came from.
 pub fn quiet_panics() {
-    if std::env::var_os("VERIF_LOUD_PANICS").is_none() {
-        std::panic::set_hook(Box::new(|_| {}));
-    }
+    let loud = std::env::var_os("VERIF_LOUD_PANICS").is_some();
+    let default_hook = std::panic::take_hook();
+    std::panic::set_hook(Box::new(move |info| {
+        let file = info.location().map(|l| l.file().to_string()).unwrap_or_default();
+        if file.starts_with("src/") || file.starts_with("harness/src/") {
+            // a panic that started in the harness (it may be re-raised on another thread by a join)
+            HARNESS_PANICKED.store(true, std::sync::atomic::Ordering::SeqCst);
+            eprintln!("MACHINERY ERROR: panic in the harness's own code at {}", info.location().map(|l| l.to_string()).unwrap_or_default());
+        }
+        LAST_PANIC_FILE.with(|f| *f.borrow_mut() = file);
+        if loud {
+            default_hook(info);
+        }
+    }));
 }
 
 /// Compares all 32 finalizations of a real generator with the reference.
